@@ -118,7 +118,9 @@ def layout_jobs(tier, rnd, recs):
     jobs = []; seen = collections.Counter()
     LAY = {"hanging": gen.hanging_calls, "exploded": gen.exploded_calls, "nonascii-prefix": gen.nonascii_prefix, "nonascii-last-arg": gen.nonascii_last_argument,
            "hanging+nonascii-last-arg": lambda s_: (lambda h: gen.nonascii_last_argument(h) if h else None)(gen.hanging_calls(s_)),
-           "hanging+nonascii-prefix": lambda s_: (lambda h: gen.nonascii_prefix(h) if h else None)(gen.hanging_calls(s_))}
+           "hanging+nonascii-prefix": lambda s_: (lambda h: gen.nonascii_prefix(h) if h else None)(gen.hanging_calls(s_)),
+           # the reported call inside parentheses of its own that open and close on other lines: the tool reports the PARENTHESIZED range
+           "paren-multiline": gen.paren_multiline}
     for r in recs:
         if r["tool"] != "semgrep" or seen[r["codemod"]] >= (2 if tier == "quick" else 6): continue
         src = r["input"]
@@ -144,7 +146,12 @@ def layout_jobs(tier, rnd, recs):
             for rule, (tname, idx) in picks:
                 same = [x for x in nodes2 if type(x).__name__ == tname]
                 if idx >= len(same): regions = None; break
-                regions.append(dict(_region_of(same[idx], lines2), rule=rule))
+                reg = _region_of(same[idx], lines2); nd = same[idx]
+                if lname == "paren-multiline":
+                    if not (nd.lineno >= 2 and nd.end_lineno < len(lines2) and lines2[nd.lineno - 2].rstrip().endswith("(") and lines2[nd.end_lineno].strip().startswith(")")): regions = None; break
+                    up, down = lines2[nd.lineno - 2].rstrip(), lines2[nd.end_lineno]
+                    reg = {"sl": nd.lineno - 1, "sc": len(up), "el": nd.end_lineno + 1, "ec": down.index(")") + 2, "snippet": "\n".join(lines2[nd.lineno - 2:nd.end_lineno + 1])}
+                regions.append(dict(reg, rule=rule))
             if not regions: continue
             for reported in (True, False):
                 res = [{"ruleId": g["rule"], "message": {"text": "m"}, "locations": [{"physicalLocation": {"artifactLocation": {"uri": "code.py"}, "region": {"startLine": g["sl"], "startColumn": g["sc"], "endLine": g["el"], "endColumn": g["ec"], "snippet": {"text": g["snippet"]}}}}]} for g in regions] if reported else []
